@@ -447,7 +447,7 @@ func mkFrame(cx *dctx, via map[ssa.CallInstruction]*ssa.Return, up *frame, upCal
 }
 
 func topFrame(fn *ssa.Function) *frame {
-	return mkFrame(&dctx{fn: fn, res: idRes, key: fn.Name()}, nil, nil, nil)
+	return mkFrame(&dctx{fn: fn, res: idRes, key: refName(fn)}, nil, nil, nil)
 }
 
 // frameFor builds the frame chain that leads to the function containing a deep call site.
@@ -626,8 +626,8 @@ func originsDeep(v ssa.Value, depth int) []ssa.Value {
 		if call != nil && depth > 0 {
 			h = samePkgHelper(call.Parent(), call)
 		}
+		out = append(out, o)
 		if h == nil {
-			out = append(out, o)
 			continue
 		}
 		for _, ret := range returnsOf(h) {
